@@ -5,6 +5,7 @@ from ..index import u, call_name, call_attr, walk_local
 from .. import flow
 from ..fold import try_fold
 from ..util import stmts_with_env, calls_with_env, assignments_to, single_def, param_names
+from . import shared
 from .common import method, guarded_by_raise, raise_condition_is, has_atom, comp_signature, comp_element, unconditional_in
 
 DSSP = 'vermouth/dssp/dssp.py'
@@ -170,6 +171,41 @@ def run(ck):
               and [u(a) for a in outer.iter.args] == ['residues', 'sequence']
               and u(single_def(ann, 'residues')) in ('list(molecule.iter_residues())', 'tuple(molecule.iter_residues())'))
     ck.ob('MPT-whole-residue', mod.loc(store), ok, 'the k-th value is stored on every node of the k-th residue, unconditionally', key='MPT-whole-residue')
+    # ... and that order is input order: the residue graph numbers its residues by their lowest atom key (partition_graph)
+    shared.partition_graph_rule(ck, 'MPT-whole-residue')
+    # which molecules are annotated at all: "protein" means every atom carries a residue name of the protein set (an atom without a name is not protein);
+    # interpreted on five molecules, with a faithful stand-in for networkx.get_node_attributes
+    from .. import interp as _interp
+    sel = ck.index.mod('vermouth/selectors.py')
+    isp = sel.func('is_protein')
+    ck.analysed(sel, isp)
+    prot = try_fold(sel.constants.get('PROTEIN_RESIDUES'), default=None)
+    okp = prot is not None and len(isp.args.args) == 1
+
+    class _Mol(_interp.Model):
+        def __init__(self, nodes):
+            self.nodes = nodes
+
+        def __iter__(self):
+            return iter(self.nodes)
+
+        def __len__(self):
+            return len(self.nodes)
+    if okp:
+        some = sorted(prot)[:2]
+        samples = [({0: {'resname': some[0]}, 1: {'resname': some[1]}}, True), ({0: {'resname': some[0]}, 1: {'resname': 'W'}}, False),
+                   ({0: {'resname': some[0]}, 1: {}}, False), ({0: {'resname': None}}, False), ({}, True)]
+        try:
+            for nodes_, want_ in samples:
+                m_ = _Mol(nodes_)
+                got_ = _interp.call(isp.body, {isp.args.args[0].arg: m_, 'PROTEIN_RESIDUES': set(prot),
+                                               'nx.get_node_attributes': lambda g_, a_: {n_: d_[a_] for n_, d_ in g_.nodes.items() if a_ in d_}})
+                if got_ is not want_:
+                    okp = False
+        except (_interp.Unsupported, TypeError, KeyError, AttributeError):
+            okp = False
+    ck.ob('PROV-selected-only', sel.loc(isp), okp, 'is_protein: true exactly when every atom has a residue name of the protein set (an atom without a residue name makes the '
+          'molecule a non-protein)', key='PROV-selected-only|is_protein')
     # iter_residues is ordered
     mol = idx.mod('vermouth/molecule.py')
     ir = mol.func('Molecule.iter_residues')
@@ -234,7 +270,7 @@ def run(ck):
                                                                                                         (call_name(c) or '').split('.')[-1] in ('collect_residues', 'make_residue_graph'))]
     ck.ob('SIB-residue-order', mod.loc(ann), all(v == ['molecule.iter_residues()'] for v in users.values()),
           'counting, assigning and reading back per-residue values all enumerate residues through molecule.iter_residues(): {}'.format(users), key='SIB-residue-order')
-    from . import shared
+
     shared.truthy_zero(ck, [DSSP])
 
     # ---- TAB: alphabet and translation table
